@@ -401,3 +401,206 @@ c.exsures(_re.error)
 c.exsures(KeyError)
 c.exsures(IndexError)
 c.trusted = "callers' view inside _parse_config: some compiled (file -> patterns) table or an error; the table's content is bounded (checks/c18.py) and C03's shadow"
+
+
+# --------------------------------------------------------------------------- _parse_current_version_default_pattern (body)
+# "always including the config file's own current_version line": the line is looked for inside the sections the
+# statement lists - [bumpver] (setup.cfg, bumpver.toml, .bumpver.toml), [tool.bumpver] (pyproject.toml), legacy [pycalver].
+CONFIG_HEADERS = ("[bumpver]", "[tool.bumpver]", "[pycalver]")
+G_SEC = z3.Function("ghost_in_config_section", z3.SeqSort(z3.StringSort()), z3.IntSort(), z3.BoolSort())
+
+
+def _lines_of(a):
+    return _sm.SPLITLINES(V.z3str(a.raw_cfg_text))
+
+
+def _is_header(line):
+    from pyvc.models import STRIP_WS
+
+    s = STRIP_WS(line)
+    return z3.Or(*[s == z3.StringVal(h) for h in CONFIG_HEADERS])
+
+
+def _is_other_section(line):
+    n = z3.Length(line)
+    return z3.And(n > 0, z3.SubString(line, 0, 1) == z3.StringVal("["), z3.SubString(line, n - 1, 1) == z3.StringVal("]"))
+
+
+def _sec_defs_at(a, k):
+    """in_section(0) = False; in_section(k+1): a listed header opens it, any other [..] line closes it, else unchanged."""
+    L = _lines_of(a)
+    kt = V.z3int(k)
+    line = L[kt]
+    return [
+        G_SEC(L, 0) == z3.BoolVal(False),
+        G_SEC(L, kt + 1) == z3.If(_is_header(line), z3.BoolVal(True), z3.If(_is_other_section(line), z3.BoolVal(False), G_SEC(L, kt))),
+    ]
+
+
+def _cvdp_returns(a, res, cx):
+    k = cx.ghost.get("loop_k")
+    if k is None:
+        return False  # a pattern was returned without a line of the file
+    L = _lines_of(a)
+    kt = V.z3int(k)
+    raw = cx.ghost["raw0"]
+    line = L[kt]
+    return b_and(
+        G_SEC(L, kt),
+        z3.PrefixOf(z3.StringVal("current_version"), line),
+        # the line with the version text replaced by the version pattern (str.replace: A-str)
+        V.z3str(res) == _sm.PY_REPLACE_ALL(line, V.z3str(raw.value["current_version"]), V.z3str(raw.value["version_pattern"])),
+    )
+
+
+c = REG.new("bumpver.config._parse_current_version_default_pattern")
+c.param("raw_cfg", KRawCfg())
+c.param("raw_cfg_text", KStr())
+c.setup = lambda a, st: st.ghost.__setitem__("raw0", snapshot(a.raw_cfg))
+c.loop(
+    0,
+    LoopSpec(
+        carried={"is_config_section": KBool()},
+        invariant=lambda a, vs, k, cx, st: b_iff(v_truthy(vs["is_config_section"]), G_SEC(_lines_of(a), V.z3int(k))),
+        name="C18+C03+C08._parse_current_version_default_pattern.loop",
+        props=("C18", "C03", "C08"),
+        lemmas=lambda a, k, st: _sec_defs_at(a, k),
+    ),
+)
+c.ensures("C18+C03+C08._parse_current_version_default_pattern.returns_the_current_version_line_of_a_listed_config_section_with_the_pattern_put_in", _cvdp_returns)
+c.exsures(ValueError, "C18._parse_current_version_default_pattern.value_error_if_no_such_line", lambda a, exc, cx: True)
+
+
+# --------------------------------------------------------------------------- _parse_raw_config (body): reader by format + the config file's own pattern
+from .config_init import KCtx  # noqa: E402
+from pyvc.models import FileVal, FS_CONTENT  # noqa: E402
+
+FP_HAS = z3.Function("file_patterns_has_key", V.opaque_sort("FilePatternsRaw"), z3.StringSort(), z3.BoolSort())
+
+
+class FPTable:
+    """The file_patterns table of a raw configuration: an opaque table with key membership and a ghost list of additions."""
+
+    def __init__(self, t):
+        self.t = t
+        self.added = []
+
+    def __pyvc_clone__(self, memo):
+        r = FPTable(self.t)
+        r.added = list(self.added)
+        return r
+
+    def __pyvc_contains__(self, key):
+        hit = [k for k, _ in self.added]
+        return b_or(SBool(FP_HAS(self.t, V.z3str(key))), *[v_eq(k, key) for k in hit])
+
+    def __pyvc_setitem__(self, ex, idx, v, st, node):
+        tgt = self
+        try:
+            again = ex.models._reeval_container(ex, node, st)
+            if isinstance(again, FPTable):
+                tgt = again
+        except Exception:  # noqa
+            pass
+        tgt.added.append((idx, v))
+        return [Outcome("fall", None, st)]
+
+
+from pyvc.symexec import Outcome  # noqa: E402
+
+
+def _reader_view(kind):
+    def hook(ex, a, st, node):
+        assumptions = []
+        n = fresh_name(f"raw_{kind}")
+        d = KRawCfg().fresh(n, assumptions)
+        d.value["file_patterns"] = FPTable(z3.Const(f"{n}[file_patterns]", V.opaque_sort("FilePatternsRaw")))
+        for x in assumptions:
+            st.assume(x)
+        out = []
+        for cls in (ValueError, TypeError):
+            bad = st.fork()
+            bad.emit("Reader", kind, a.cfg_buffer, cls)
+            out.append(Exc(ExcVal(cls, (V.sstr(fresh_name("excmsg")),)), bad))
+        st.emit("Reader", kind, a.cfg_buffer, d)
+        out.append(Val(d, st))
+        return out
+
+    return hook
+
+
+for _kind, _qn in (("toml", "bumpver.config._parse_toml"), ("cfg", "bumpver.config._parse_cfg")):
+    c = REG.add(Contract(_qn, variant="view"))
+    c.param("cfg_buffer", KOpaque("file"))
+    c.callee_hook = _reader_view(_kind)
+    c.trusted = "callers' view of the reader inside _parse_raw_config: the raw dictionary established by the reader's own contract (version keys and file_patterns present), or TypeError/ValueError"
+
+
+def _cvdp_view(ex, a, st, node):
+    res = V.sstr(fresh_name("self_pattern"))
+    bad = st.fork()
+    st.emit("SelfPattern", a.raw_cfg, a.raw_cfg_text, res)
+    return [Val(res, st), Exc(ExcVal(ValueError, ("Could not parse 'current_version'",)), bad)]
+
+
+c = REG.add(Contract("bumpver.config._parse_current_version_default_pattern", variant="view"))
+c.param("raw_cfg", KOpaque("rawcfg"))
+c.param("raw_cfg_text", KStr())
+c.callee_hook = _cvdp_view
+c.trusted = "callers' view inside _parse_raw_config: some pattern text or ValueError; what it is: the contract on the body above"
+
+
+def _same_raw(x, y):
+    """The same raw dictionary (states are cloned at forks: compared by the identity of its file_patterns table)."""
+    if not (isinstance(x, FDict) and isinstance(y, FDict)):
+        return False
+    tx, ty = x.value.get("file_patterns"), y.value.get("file_patterns")
+    return isinstance(tx, FPTable) and isinstance(ty, FPTable) and tx.t.eq(ty.t)
+
+
+def _raw_config_clause(kind):
+    def fn(a, res, cx):
+        readers = [e for e in cx.new if e[0] == "Reader"]
+        opens = [e for e in cx.new if e[0] == "Open"]
+        cfgpath = field(a.ctx, "config_filepath").s
+        if len(readers) != 1 or not opens:
+            return False
+        r = readers[0]
+        fmt = field(a.ctx, "config_format")
+        if kind == "reader":
+            # the file handed to the reader is the project's config file, opened as utf-8 text; reader by declared format
+            f = r[2]
+            ok_file = isinstance(f, FileVal) and f.path.s is cfgpath or (isinstance(f, FileVal) and v_eq(f.path.s, cfgpath) is True)
+            o = opens[0]
+            return b_and(ok_file, v_eq(o[1], cfgpath), o[2] == "rt", o[4] == "utf-8", v_eq(fmt, r[1]), _same_raw(res, r[3]))
+        if kind == "self_pattern":
+            table = res.value["file_patterns"] if isinstance(res, FDict) else None
+            if not isinstance(table, FPTable):
+                return False
+            rel = field(a.ctx, "config_rel_path")
+            had = SBool(FP_HAS(table.t, V.z3str(rel)))
+            sp = [e for e in cx.new if e[0] == "SelfPattern"]
+            if not table.added:
+                # nothing added: allowed only if the table already had an entry for the config file (on this path)
+                return b_and(had, len(sp) == 0)
+            if len(table.added) != 1 or len(sp) != 1:
+                return False
+            k, v = table.added[0]
+            e = sp[0]
+            ver = sum(1 for x in cx.log if x and x[0] == "Write")
+            text_ok = V.z3str(e[2]) == FS_CONTENT(V.z3str(cfgpath), z3.IntVal(ver))
+            return b_and(b_not(had), v_eq(k, rel), isinstance(v, list) and len(v) == 1 and v_eq(v[0], e[3]), _same_raw(e[1], res), text_ok)
+        raise KeyError(kind)
+
+    return fn
+
+
+c = REG.add(Contract("bumpver.config._parse_raw_config", variant="body"))
+c.callee_variants = {"bumpver.config._parse_toml": "view", "bumpver.config._parse_cfg": "view", "bumpver.config._parse_current_version_default_pattern": "view"}
+c.param("ctx", KCtx())
+c.ensures("C18._parse_raw_config.reader_chosen_by_format_reads_the_config_file_as_utf8_and_its_dictionary_is_returned", _raw_config_clause("reader"), internal=True)
+c.ensures("C18+C03+C08._parse_raw_config.file_patterns_always_include_the_config_files_own_current_version_line", _raw_config_clause("self_pattern"), internal=True)
+c.exsures(ValueError)
+c.exsures(TypeError)
+c.exsures(OSError)
+c.exsures(RuntimeError)
